@@ -1,0 +1,36 @@
+//go:build verif
+
+package toerror
+
+// Contracts for the toerror plugin (C16, C01, C09), read by /verif's gvc (comment-only file).
+// $arg<d>_<i> is the i-th argument of the function literal at nesting depth d.
+
+//@ func (g *gen) Add(name string, typs []types.Type) (r string, err error)
+//@ param typs: len=0,1,2,3
+//@ param name: classes=Ident
+
+//@ func (g *gen) Generate(typs []types.Type) (err error)
+//@ param typs: len=1 kind0=Signature
+
+//@ func (g *gen) genFuncFor(deriveFuncName string, ftyp *types.Signature) (err error)
+//@ param deriveFuncName: classes=Ident
+//@ param ftyp: nresults=1,2,3 lastbool
+//@ name-variants
+//@ emits: decls
+//@ o-closure: cr0 cr1 cr2
+//@ o-closure-ensures: when nparams(ftyp)=0 [one-call-arguments-in-place] traceLen() == 1 && called(0, f)
+//@ o-closure-ensures: when nparams(ftyp)=0 when nresults(ftyp)=1 [bool-to-error-others-unchanged] (result(0, f) ==> cr0 == nil) && (!result(0, f) ==> cr0 == err)
+//@ o-closure-ensures: when nparams(ftyp)=0 when nresults(ftyp)=2 [bool-to-error-others-unchanged] cr0 == result(0, f) && (result(1, f) ==> cr1 == nil) && (!result(1, f) ==> cr1 == err)
+//@ o-closure-ensures: when nparams(ftyp)=0 when nresults(ftyp)=3 [bool-to-error-others-unchanged] cr0 == result(0, f) && cr1 == result(1, f) && (result(2, f) ==> cr2 == nil) && (!result(2, f) ==> cr2 == err)
+//@ o-closure-ensures: when nparams(ftyp)=1 [one-call-arguments-in-place] traceLen() == 1 && called(0, f, $arg0_0)
+//@ o-closure-ensures: when nparams(ftyp)=1 when nresults(ftyp)=1 [bool-to-error-others-unchanged] (result(0, f, $arg0_0) ==> cr0 == nil) && (!result(0, f, $arg0_0) ==> cr0 == err)
+//@ o-closure-ensures: when nparams(ftyp)=1 when nresults(ftyp)=2 [bool-to-error-others-unchanged] cr0 == result(0, f, $arg0_0) && (result(1, f, $arg0_0) ==> cr1 == nil) && (!result(1, f, $arg0_0) ==> cr1 == err)
+//@ o-closure-ensures: when nparams(ftyp)=1 when nresults(ftyp)=3 [bool-to-error-others-unchanged] cr0 == result(0, f, $arg0_0) && cr1 == result(1, f, $arg0_0) && (result(2, f, $arg0_0) ==> cr2 == nil) && (!result(2, f, $arg0_0) ==> cr2 == err)
+//@ o-closure-ensures: when nparams(ftyp)=2 [one-call-arguments-in-place] traceLen() == 1 && called(0, f, $arg0_0, $arg0_1)
+//@ o-closure-ensures: when nparams(ftyp)=2 when nresults(ftyp)=1 [bool-to-error-others-unchanged] (result(0, f, $arg0_0, $arg0_1) ==> cr0 == nil) && (!result(0, f, $arg0_0, $arg0_1) ==> cr0 == err)
+//@ o-closure-ensures: when nparams(ftyp)=2 when nresults(ftyp)=2 [bool-to-error-others-unchanged] cr0 == result(0, f, $arg0_0, $arg0_1) && (result(1, f, $arg0_0, $arg0_1) ==> cr1 == nil) && (!result(1, f, $arg0_0, $arg0_1) ==> cr1 == err)
+//@ o-closure-ensures: when nparams(ftyp)=2 when nresults(ftyp)=3 [bool-to-error-others-unchanged] cr0 == result(0, f, $arg0_0, $arg0_1) && cr1 == result(1, f, $arg0_0, $arg0_1) && (result(2, f, $arg0_0, $arg0_1) ==> cr2 == nil) && (!result(2, f, $arg0_0, $arg0_1) ==> cr2 == err)
+//@ o-closure-ensures: when nparams(ftyp)=3 [one-call-arguments-in-place] traceLen() == 1 && called(0, f, $arg0_0, $arg0_1, $arg0_2)
+//@ o-closure-ensures: when nparams(ftyp)=3 when nresults(ftyp)=1 [bool-to-error-others-unchanged] (result(0, f, $arg0_0, $arg0_1, $arg0_2) ==> cr0 == nil) && (!result(0, f, $arg0_0, $arg0_1, $arg0_2) ==> cr0 == err)
+//@ o-closure-ensures: when nparams(ftyp)=3 when nresults(ftyp)=2 [bool-to-error-others-unchanged] cr0 == result(0, f, $arg0_0, $arg0_1, $arg0_2) && (result(1, f, $arg0_0, $arg0_1, $arg0_2) ==> cr1 == nil) && (!result(1, f, $arg0_0, $arg0_1, $arg0_2) ==> cr1 == err)
+//@ o-closure-ensures: when nparams(ftyp)=3 when nresults(ftyp)=3 [bool-to-error-others-unchanged] cr0 == result(0, f, $arg0_0, $arg0_1, $arg0_2) && cr1 == result(1, f, $arg0_0, $arg0_1, $arg0_2) && (result(2, f, $arg0_0, $arg0_1, $arg0_2) ==> cr2 == nil) && (!result(2, f, $arg0_0, $arg0_1, $arg0_2) ==> cr2 == err)
